@@ -353,13 +353,11 @@ where
     /// ```
     pub fn disconnect(&self, other: &K) -> Result<E, Error> {
         match self.find_outbound(other) {
-            Some(other) => match self.inner.2.borrow_mut().remove_outbound(other.key()) {
-                Ok(edge) => {
-                    other.inner.2.borrow_mut().remove_inbound(self.key())?;
-                    Ok(edge)
-                }
-                Err(err) => Err(err),
-            },
+            Some(other) => {
+                let edge = self.inner.2.borrow_mut().remove_outbound(other.key())?;
+                other.inner.2.borrow_mut().remove_inbound(self.key())?;
+                Ok(edge)
+            }
             None => Err(Error::EdgeNotFound),
         }
     }
